@@ -329,7 +329,7 @@ def _pairs():
 
 def cases(tier, seed):
     pairs = _pairs()
-    variants = 32 if tier == "thorough" else 1
+    variants = 32 if tier == "thorough" else 3
     for v in range(variants):
         for fam, dev in pairs:
             for flags in (0, 8, 0xC):
@@ -337,7 +337,7 @@ def cases(tier, seed):
     fams = sorted({f for f, _ in pairs})
     xf = [f for f in fams if f.startswith(XMCD_FAMILIES_HINT)]
     sd = [f for f, d in pairs if d == "serial_downloader"]
-    rep = 8 if tier == "thorough" else 1
+    rep = 8 if tier == "thorough" else 2
     for k in range(rep):
         # directed: XMCD on every RT116x/117x family (authenticated and encrypted), instance 0 and non-zero
         for i, fam in enumerate(xf):
